@@ -18,7 +18,14 @@ get_file_content hash_content get_line_index get_parsed_ast is_fixture_decorator
 find_yield_in_stmt collect_local_variables visit_stmt_for_names is_available_fixture get_fixture_definition_at_line
 get_definition_at_line find_fixture_definition find_references_for_definition get_completion_context
 get_completion_context_from_text internal_line_to_lsp lsp_line_to_internal file_cache definitions usage_by_fixture
-definitions_version is_in_site_packages should_skip_directory evict_cache_if_needed cleanup_file_cache""".split()
+definitions_version is_in_site_packages should_skip_directory evict_cache_if_needed cleanup_file_cache
+FixtureUsage UndeclaredFixture FixtureCycle ScopeMismatch FixtureImport EditableInstall ParamInsertionInfo RawConfig file_definitions
+undeclared_fixtures canonical_path_cache ast_cache cycle_cache imported_fixtures_cache line_index_cache available_fixtures_cache
+plugin_fixture_files module_path is_star_import imported_names importing_file handle_completion handle_references
+handle_incoming_calls handle_document_symbol find_parameter_ranges create_range path_to_uri from_raw get_available_fixtures
+detect_fixture_cycles is_fixture_imported_in_file resolve_absolute_import find_module_file scan_single_plugin_file
+extract_return_type format_docstring has_fixture_decorator_above get_function_param_insertion_info
+find_containing_function""".split()
 
 repo = extract.repo_root()
 bad = 0
